@@ -38,6 +38,9 @@ BASE_GUID = "1a2b3c4d-0000-4000-8000-00000000000a"
 TYPES = {"flat": ["FLAT", "VMFS"], "kdmv": ["SPARSE"], "cowd": ["VMFSSPARSE"], "sesparse": ["SESPARSE"]}
 
 
+from hv import sparse as _sp  # noqa: E402
+
+
 def budget(tier):
     return 6000 if tier == "quick" else 20000
 
@@ -70,10 +73,12 @@ def vmdk_desc(draw, tier):
             # .vmdk written to a raw disk) is still data
             e["head"] = draw(st.sampled_from(["KDMV\x01\x00\x00\x00\x03\x00\x00\x00", "KDMV", "COWD\x01\x00\x00\x00", "\xbe\xba\xfe\xca\x00\x00\x00\x00\x02\x00\x00\x00\x01\x00\x00\x00",
                                               "# Disk DescriptorFile\nversion=1\n"]))
+        typ = draw(st.sampled_from(TYPES[kind]))
         exts.append({
-            "spec": e, "type": draw(st.sampled_from(TYPES[kind])), "name": draw(file_name(j)),
+            "spec": e, "type": typ, "name": draw(file_name(j)),
             "access": draw(st.sampled_from(["RW", "RW", "RDONLY", "NOACCESS"])),
-            "offset": 0 if kind == "flat" and draw(st.booleans()) else None,
+            # the last number of a FLAT line is where the extent's data starts inside its file, in sectors (several extents may share a file)
+            "offset": draw(st.sampled_from([0, 0, 0, 1, 8, 2048])) if typ == "FLAT" and draw(st.booleans()) else None,
             "flat_extra": draw(st.sampled_from([0, 0, 512, 100])) if kind == "flat" else 0,
         })
     names = set()
@@ -277,6 +282,13 @@ def check(spec) -> Outcome:
         for e, fh in zip(exts, built):
             if e.get("flat_extra"):
                 fh.grow(fh.size + e["flat_extra"])
+            if e.get("offset"):
+                shifted = _sp.SparseFile()
+                shifted.put(0, _sp.Pat(0xDEC0 + len(lines), e["offset"] * 512))  # other data in front of the extent's own
+                copy_shifted(fh, shifted, e["offset"] * 512)
+                shifted.grow(e["offset"] * 512 + fh.size)
+                fh = shifted
+                out.cls("flat-start-offset")
             fh.write_to(os.path.join(d, e["name"]))
             lines.append({"access": e["access"], "sectors": e["spec"]["capacity"], "type": e["type"], "file": e["name"], "offset": e["offset"]})
         for pos in sorted(spec.get("zero_lines", []), reverse=True):
